@@ -17,6 +17,7 @@ TRANSLATORS = [
     ('c17_signalops', 'py2coq_c17', 'regenerate'),
     ('c06_fourier', 'py2coq_c06', 'regenerate'),
     ('helpers', 'py2coq_helpers', 'regenerate'),
+    ('c07_smoothing', 'py2coq_c07', 'regenerate'),
 ]
 
 
